@@ -1,7 +1,7 @@
 """C20 - every append completes within a bounded time: lost-wakeup freedom only (R20.1-R20.4)."""
 from ..facts import Program, Inconclusive, op_place
 from ..flow import Ev, walk, show, strip
-from ..util import calls, ok_return_blocks, must_pass, field_stores
+from ..util import calls, ok_return_blocks, must_pass, field_stores, follow_copies
 from . import c01
 
 WTP = "sierradb::writer_thread_pool::"
@@ -138,4 +138,41 @@ def run(chk, facts_dir, tier):
         chk.ok("R20.4", "rollover keeps the channel (no replacement): C01 R1.4 decides whether that is sound", rb.where())
     else:
         chk.fail("R20.4", WS + "rollover", "channel-replaced-before-sync", "the sync channel is replaced before the old segment was synced: appends waiting on the old channel are never woken", rb)
+    # R20.6 the skip decision does not look at the segment writer's offsets
+    chk.rule("R20.6", "SKIPPING A SYNC NEEDS NO-WAITER EVIDENCE: the functions that decide whether a poll tick or a write syncs (should_sync, sync_if_necessary, handle_flush_poll) "
+                      "decide from WriterSet's own bookkeeping only (byte / event counters, last_synced, the published sync_tx value), which changes together with publications; they never "
+                      "consult the segment writer's flushed or write offset: Writer::set_len (the rollback of a failed write) fsyncs and moves the flushed offset without publishing, "
+                      "so `flushed == written` does not mean that nobody waits")
+    n6 = 0
+    for name in ("should_sync", "sync_if_necessary"):
+        for b in prog.family(WS + name):
+            if b.path != WS + name:
+                continue
+            n6 += 1
+            chk.analysed(b.path)
+            bad = [t for bi, t in b.calls() if any((b.callee_decl(t) or "").endswith(x) for x in ("FlushedOffset::load", "::flushed_offset", "BucketSegmentWriter::write_offset", "Writer::<H>::write_offset"))]
+            if bad and name == "should_sync":
+                chk.fail("R20.6", WS + name, "skip-by-writer-offsets", "the decision to sync looks at the segment writer's offsets (%s): after a rolled-back write the writer looks clean while "
+                         "earlier appends still wait for a publication that no poll tick will make" % (b.callee_decl(bad[0]) or "").rsplit("::", 2)[-2:], b, bad[0]["line"])
+            elif name == "should_sync":
+                chk.ok("R20.6", "should_sync decides from WriterSet bookkeeping only", b.where())
+            else:
+                # the decision is should_sync's alone: the only branch that dominates the sync() call is the one on should_sync's result
+                ss = [(bi, t) for bi, t in b.calls() if (b.callee_decl(t) or "") == WS + "should_sync"]
+                sy = [(bi, t) for bi, t in b.calls() if (b.callee_decl(t) or "") == WS + "sync"]
+                if len(ss) != 1 or len(sy) != 1:
+                    raise Inconclusive("sync_if_necessary: expected one should_sync and one sync call, found %d/%d" % (len(ss), len(sy)))
+                dest = ss[0][1]["dest"]["l"]
+                others = []
+                for bi2, blk in enumerate(b.blocks):
+                    t2 = blk["t"]
+                    if t2["k"] == "switch" and b.dominates(bi2, sy[0][0]) and bi2 != sy[0][0]:
+                        p2 = op_place(t2["op"])
+                        if p2 is None or follow_copies(b, p2["l"]) != dest:
+                            others.append(t2.get("line"))
+                if bad or others:
+                    chk.fail("R20.6", WS + name, "extra-skip-condition", "sync_if_necessary skips the sync on a condition other than should_sync (%s)" % (others or "writer offsets"), b)
+                else:
+                    chk.ok("R20.6", "sync_if_necessary: sync() iff should_sync()", b.where())
+    chk.floor("R20.6", n6, 2)
     return {}
